@@ -1,6 +1,7 @@
 import JrsVerif.Common.J
 import JrsVerif.Model.Stack
 import JrsVerif.Model.Total
+import JrsVerif.Model.TotalKern
 import JrsVerif.Generated.Consts
 
 namespace JrsVerif.Drv.C04
@@ -103,6 +104,18 @@ def bindPrepare (j : Json) : Json :=
         | none => obj [("r", .str "arity")]
       obj [("model", model), ("spec", spec)]
 
+/-! ### bind.accept: does the parser accept this parameter list? -/
+open JrsVerif.Total JrsVerif.TotalKern in
+def bindAccept (j : Json) : Json :=
+  match arr? j "params" with
+  | none => bad "bind.accept: parse"
+  | some ps =>
+    let ps := parseParams ps
+    let names := ps.filterMap (·.name)
+    -- model: `ExprParams::duplicate_name` as coded; spec: the language rule (no name twice)
+    obj [("model", obj [("accepted", .bool (paramsAccepted ps))]),
+         ("spec", obj [("accepted", .bool (names.eraseDups.length == names.length))])]
+
 /-! ### num.clamp, str.truncate -/
 open JrsVerif.Total in
 def numClamp (j : Json) : Json :=
@@ -168,6 +181,7 @@ def handle (op : String) (j : Json) : Option Json :=
   match op with
   | "stack.run" => some (stackRun j)
   | "bind.prepare" => some (bindPrepare j)
+  | "bind.accept" => some (bindAccept j)
   | "c04.clamp" => some (numClamp j)
   | "str.truncate" => some (strTruncate j)
   | "total.observe" => some (observe j)
